@@ -42,17 +42,37 @@ What is shown, for EVERY byte string `b`:
   only. No count or length taken from the file drives an allocation or a loop by itself: every iteration of a
   `range(count)` loop consumes ≥ 1 byte through `read_fmt` or raises.
 
-What the model does NOT show. The bound is about the skeleton only: payload classes are opaque bytes here.
-The real code is super-linear in places outside the skeleton — nested `io.BytesIO` copies inside payload
-classes, `Lr16`/`Lr32` tagged blocks that recurse into the layer-info reader (unbounded nesting, cut only by
-Python's recursion limit → `RecursionError`), the engine-data tokenizer slicing the tail of its buffer once
-per token. Real time, real memory, interpreter crashes, zlib and PIL native code are runtime behaviour
-that only the watchdog-supervised subprocess of harness/props/C06.py observes.
+* the WHOLE modelled reader (sections 7-12). `OpenCost.openC D b` (Model/OpenCost.lean, Model/OpenDispatch.lean,
+  Model/OpenMain.lean) is the skeleton with the payload dispatch of `TaggedBlock.read` / `ImageResource.read` put back:
+  every class registered in `tagged_blocks.TYPES` and `image_resources.TYPES` (REGENERATED registries) runs its counting
+  twin — the `PCodec` combinators (Model/PayloadCost.lean), the hand-written readers of units 2-10
+  (Model/PayloadCost*.lean), the descriptor reader (Model/DescriptorCost.lean), the engine-data parser
+  (Model/EngineDataCost.lean) — and `Lr16` / `Lr32` recurse into the layer-info reader on a fuel `D` that stands for
+  CPython's recursion limit. `open_steps_bound`: ticks + bytes ≤ (2105 + 4·n + 168·min D (n/12))·n + 287 for EVERY byte
+  string and EVERY outcome. Two quadratic terms, both real: every nesting level copies its block
+  (`nested_family_quadratic`: 120·m² bytes for the 60·m + 46 byte document of depth m) and the `Slices` resource re-reads
+  the rest of its block once per slice (`slices_not_linear`, known finding). The side condition that makes every
+  count-driven loop stop at the first failing item, `bodyProgress`, holds for every class by `decide`
+  (`body_progress_all_classes`) and the loops / allocation sites / registries / regular expressions the model assumes
+  are tied to the source by `decide` over regenerated tables (section 11).
+
+What the model does NOT show. Real time, real memory, interpreter crashes, zlib and PIL native code are runtime behaviour
+that only the watchdog-supervised subprocess of harness/props/C06.py observes; `PSDImage._init` (the layer tree) and the
+export paths are outside `openC`. That CPython's `re` does O(1) work per byte on the engine-data patterns is TRUSTED
+(a decidable sufficient condition on the regenerated patterns is checked: `engine_patterns_safe`). A declared length is
+handed to `fp.read` as it is (`declared_length_is_requested`): the bound on allocation is about what `read` RETURNS
+(`io.BytesIO`); a buffered file object reserves the request first (known finding C06/open-from-path).
 -/
 import PsdVerif.Lemmas.Safe3
 import PsdVerif.Lemmas.SafeCost4
 import PsdVerif.Lemmas.SafeSamples
 import PsdVerif.Props.C05
+import PsdVerif.Lemmas.OpenMain
+import PsdVerif.Lemmas.OpenSamples
+import PsdVerif.Lemmas.CostClassTable
+import PsdVerif.Lemmas.CostTablesTied
+import PsdVerif.Lemmas.UnsafeLoops
+import PsdVerif.Lemmas.EngineRegexTied
 
 namespace PsdVerif.C06
 open PsdVerif PsdVerif.Codec PsdVerif.Psd PsdVerif.Safe PsdVerif.SafeCost
@@ -363,5 +383,245 @@ example : LayerRecord.dec 1 [] 0 = .error .ioError ∧ (PsdCost.LayerRecord.decC
 
 /-- No `std::string` primitive of `_rle.decode` is reached out of bounds (C05). -/
 theorem native_decoder_safe (e : Bytes) (n : Nat) : Rle.decC e n ≠ .oob := C05.decC_in_bounds e n
+
+/-! ### 7. the counting semantics of the payload readers: one law per combinator -/
+
+section payload
+open PsdVerif.PayloadCost PsdVerif.Payload3
+
+/-- `for _ in range(n)` over a body that consumes ≥ 1 byte when it succeeds: ticks + bytes are paid by the bytes
+consumed (success) or left (failure) — the bound does not mention `n`: an over-large count stops at the first item
+that fails -/
+theorem counted_loop_ignores_count {α : Type} {item : PsdCost.RC α} {a b k : Nat} {d : B}
+    (hi : ∀ p, p ≤ d.length → Cost a b k d p (item d p)) (hk : 1 ≤ k) (n p : Nat) (hp : p ≤ d.length) :
+    Cost (a + b + 1) (b + 1) 0 d p (PsdCost.readCountC item n d p) := readCountC_cost hi hk n p hp
+
+example : Cost 3 2 0 [] 0 (PsdCost.readCountC (PsdCost.readUC 4) 4294967295 [] 0) :=
+  counted_loop_ignores_count (fun _ _ => readUC_cost 4) (by decide) _ 0 (Nat.le_refl _)
+
+/-- `while is_readable(fp, m)`: never out of fuel, linear -/
+theorem while_loop_cost {α : Type} {item : PsdCost.RC (Option α)} {a b k : Nat} (m : Nat) {d : B}
+    (hi : ∀ p, p ≤ d.length → Cost a b k d p (item d p)) (hk : 1 ≤ k) (p : Nat) (hp : p ≤ d.length) :
+    Cost (a + b + m + 2) (b + 2 * (m + 2)) 0 d p (PsdCost.readWhileC (PsdCost.isReadableC m) item d p) :=
+  readWhileC_cost m hi hk p hp
+
+/-- the combinators of Model/Payload3Base.lean: the counting reader erases to the reader and obeys `Cost` with the
+constants computed from its shape, provided the shape passes `bodyProgress` -/
+theorem combinators_sound :
+    (∀ fs, (CC.fmt fs).Sound) ∧ CC.tailBytes.Sound ∧ (∀ pw pr, (CC.pascal pw pr).Sound) ∧ CC.ustr.Sound ∧
+    (∀ {α β : Type} (x : CC α) (y : CC β), x.Sound → y.Sound → (CC.seq x y).Sound) ∧
+    (∀ {α : Type} (w : Nat) (x : CC α), x.Sound → (CC.counted w x).Sound) ∧
+    (∀ {α : Type} (n : Nat) (x : CC α), x.Sound → (CC.exactly n x).Sound) ∧
+    (∀ {α : Type} (n pad : Nat) (x : CC α), x.Sound → (CC.whileR n pad x).Sound) ∧
+    (∀ {α : Type} (pad : Nat) (x : CC α), x.Sound → (CC.padded pad x).Sound) ∧
+    (∀ {α : Type} (w pad : Nat) (x : CC α), x.Sound → (CC.blocked w pad x).Sound) ∧
+    (∀ {α : Type} (x : CC α), x.Sound → (CC.optTail x).Sound) :=
+  ⟨CC.fmt_sound, CC.tailBytes_sound, CC.pascal_sound, CC.ustr_sound, fun _ _ hx hy => CC.seq_sound hx hy,
+   fun w _ hx => CC.counted_sound w hx, fun n _ hx => CC.exactly_sound n hx, fun n pad _ hx => CC.whileR_sound n pad hx,
+   fun pad _ hx => CC.padded_sound pad hx, fun w pad _ hx => CC.blocked_sound w pad hx, fun _ hx => CC.optTail_sound hx⟩
+
+/-- `counted` needs its side condition: the shape of a counted loop over a body that may consume nothing does not pass -/
+theorem counted_without_progress_rejected :
+    (Sh.counted 4 (Sh.leaf 0 1)).bodyProgress = false ∧ (Sh.counted 4 (Sh.leaf 1 1)).bodyProgress = true := by decide
+
+/-- the side condition for EVERY costed payload class (units 2-10), by `decide` over the table of their shapes -/
+theorem body_progress_all_classes : allTables.all (fun e => e.2.bodyProgress) = true := all_body_progress
+
+example : allTables.length = 98 := by decide
+
+/-- every class of `tagged_blocks.TYPES` costs at most `1867 · len + 1853`, every class of `image_resources.TYPES`
+at most `(62 + 4 · len) · len + 63`, and none runs out of fuel -/
+theorem payload_class_bounds :
+    OpenCost.AllR (OpenCost.RB 1867 1853) (OpenCost.blockRunners OpenCost.tables OpenCost.engineRunner OpenCost.tyshRun) ∧
+    OpenCost.AllR (OpenCost.RQ 62 63 4) (OpenCost.resourceRunners OpenCost.tables) :=
+  ⟨OpenCost.blockRunners_bound _ OpenCost.engineRunner_RB OpenCost.tyshRun_RB, OpenCost.resourceRunners_bound _⟩
+
+end payload
+
+/-! ### 8. descriptors and engine data: linear whatever the nesting -/
+
+/-- `TYPES[t].read(fp)`: the counting twin is the reader … -/
+theorem descriptor_erases (tb : Descriptor.Tables) (t : Descriptor.Tag) (d : B) (p : Nat) :
+    (DescriptorCost.decC tb t d p).1 = Descriptor.dec tb t d p := DescriptorCost.decC_fst tb t d p
+
+/-- … and costs at most `4 · (bytes consumed) + 10`: nesting does not copy, every level pays for itself out of its own
+header, so the constants are the same at every depth (and at every fuel) -/
+theorem descriptor_cost_linear (tb : Descriptor.Tables) (t : Descriptor.Tag) :
+    PayloadCost.CostR 4 10 0 (DescriptorCost.decC tb t) := DescriptorCost.decC_cost tb t
+
+theorem descriptor_block_cost (tb : Descriptor.Tables) :
+    PayloadCost.CostR 4 7 16 (DescriptorCost.Block.decC tb) ∧ PayloadCost.CostR 4 8 20 (DescriptorCost.Block2.decC tb) :=
+  ⟨DescriptorCost.Block.decC_cost tb, DescriptorCost.Block2.decC_cost tb⟩
+
+/-- the engine-data parser: linear in the length of the blob (every token consumes ≥ 1 byte), never out of fuel -/
+theorem engine_data_linear (d : EngineData.BL) :
+    (EngineDataCost.parseC d).1 = EngineData.parse d ∧ (EngineDataCost.parseC d).2.w ≤ 63 * d.length + 20 ∧
+      EngineData.parse d ≠ .error .recursionError :=
+  ⟨EngineDataCost.parseC_fst d, EngineDataCost.parseC_cost d, EngineDataCost.parse_never_out_of_fuel d⟩
+
+/-! ### 9. the whole modelled reader -/
+
+section whole
+open PsdVerif.OpenCost
+
+/-- the typed reader returns the skeleton's document whenever no payload class raises; otherwise that exception -/
+theorem open_refines_skeleton (D : Nat) (b : B) : Sim (openC D b).1 (PSD.read b 0) := openC_sim D b
+
+theorem open_ok_is_skeleton_ok {D : Nat} {b : B} {v : PSD} {p : Nat} (h : (openC D b).1 = .ok (v, p)) :
+    PSD.read b 0 = .ok (v, p) := (openC_sim D b).of_ok h
+
+/-- no loop of the whole reader runs out of fuel, for any byte string -/
+theorem open_never_out_of_fuel (D : Nat) (b : B) : (openC D b).1 ≠ .error .other := openC_never_other D b
+
+/-- MAIN: for every byte string `b` of length `n`, whatever the outcome (a document or an exception), with at most `D`
+nested layer-info blocks before `RecursionError`:  ticks ≤ P(n), allocation ≤ P(n) for
+`P(n) = (2105 + 4·n + 168·min D (n/12))·n + 287` -/
+theorem open_steps_bound (D : Nat) (b : B) :
+    (openC D b).2.ticks ≤ (2105 + 4 * b.length + 168 * min D (b.length / 12)) * b.length + 287 ∧
+    (openC D b).2.alloc ≤ (2105 + 4 * b.length + 168 * min D (b.length / 12)) * b.length + 287 := by
+  have h := openC_cost D b
+  unfold PsdCost.Cost.w at h
+  exact ⟨by omega, by omega⟩
+
+/-- whatever the recursion limit: at most quadratic -/
+theorem open_steps_bound_deep (D : Nat) (b : B) :
+    (openC D b).2.ticks + (openC D b).2.alloc ≤ 172 * b.length * b.length + 2105 * b.length + 287 :=
+  openC_cost_quadratic D b
+
+/-- with the recursion limit the nesting costs a constant factor; what stays quadratic is the `Slices` resource -/
+theorem open_steps_bound_limit (D : Nat) (b : B) :
+    (openC D b).2.ticks + (openC D b).2.alloc ≤ (2105 + 4 * b.length + 168 * D) * b.length + 287 :=
+  openC_cost_limit D b
+
+/-- truncated inputs: the bound of the prefix -/
+theorem open_truncated (D : Nat) (b : B) (k : Nat) :
+    (openC D (b.take k)).2.ticks + (openC D (b.take k)).2.alloc ≤ 172 * k * k + 2105 * k + 287 := by
+  have h := open_steps_bound_deep D (b.take k)
+  have hl : (b.take k).length ≤ k := by simp only [List.length_take]; omega
+  have h1 : 172 * (b.take k).length * (b.take k).length ≤ 172 * k * k :=
+    Nat.mul_le_mul (Nat.mul_le_mul_left _ hl) hl
+  have h2 : 2105 * (b.take k).length ≤ 2105 * k := Nat.mul_le_mul_left _ hl
+  omega
+
+/-- the nested family attains the quadratic term: a layer info inside an `Lr16` block inside the extra data of a layer
+record inside a layer info …, `m` levels in `60·m + 46` bytes; it opens, in `40·m + 24` ticks, and the copies add up to
+`120·m² + 4·m + 46` bytes -/
+theorem nested_family_quadratic :
+    [0, 1, 2, 4, 8, 16].all (fun m => (nestDoc m).length == 60 * m + 46 &&
+      (openC 1000 (nestDoc m)).1.toOption.map (·.2) == some (60 * m + 46) &&
+      (openC 1000 (nestDoc m)).2 == ⟨40 * m + 24, 120 * m * m + 4 * m + 46⟩) = true := by decide +kernel
+
+/-- … and a recursion limit cuts it: at depth 3 of 8 the reader raises `RecursionError`, having spent the levels above -/
+theorem nested_family_limit :
+    (openC 3 (nestDoc 8)).1 = .error .recursionError ∧ (openC 3 (nestDoc 8)).2 = ⟨168, 5576⟩ := by decide +kernel
+
+/-- inputs whose counts are maximal cost no more than what is there: 32767 layer records declared, none present -/
+theorem max_count_costs_nothing :
+    (openC 1000 (Safe.headerBytes ++ be4 0 ++ be4 0 ++ be4 6 ++ (be4 2 ++ [0x7F, 0xFF]) ++ [0, 0])).1 = .error .ioError ∧
+    (openC 1000 (Safe.headerBytes ++ be4 0 ++ be4 0 ++ be4 6 ++ (be4 2 ++ [0x7F, 0xFF]) ++ [0, 0])).2.ticks ≤ 40 := by
+  decide +kernel
+
+/-- … every length 0xFFFFFFFF: the first one ends the parse -/
+theorem max_length_costs_nothing :
+    (openC 1000 (Safe.headerBytes ++ [0xFF, 0xFF, 0xFF, 0xFF] ++ List.replicate 12 0xFF)).1 = .error .ioError ∧
+    (openC 1000 (Safe.headerBytes ++ [0xFF, 0xFF, 0xFF, 0xFF] ++ List.replicate 12 0xFF)).2 = ⟨11, 42⟩ := by
+  decide +kernel
+
+end whole
+
+/-! ### 10. what the theorems exclude: the unsafe variants, and the two findings -/
+
+/-- a count-driven loop whose body swallows the end-of-data error runs `n` times, whatever the data (the seeded change
+C06-r3-2 puts `MetadataSettings.read` into this shape): ticks ≥ the declared count -/
+theorem swallowing_loop_runs_count {α : Type} (item : PsdCost.RC α) (n : Nat) (d : B) (p : Nat) :
+    n ≤ (UnsafeLoops.readCountSwallowC item n d p).2.ticks := UnsafeLoops.swallow_ticks item n d p
+
+/-- … and does not even fail: 2^32 − 1 iterations on the empty stream end with an empty list; the loop the library has
+stops after two ticks -/
+theorem swallowing_loop_on_empty (n : Nat) :
+    (UnsafeLoops.readCountSwallowC (PsdCost.readUC 4) n [] 0).1 = .ok ([], 0) ∧
+      (PsdCost.readCountC (PsdCost.readUC 4) n [] 0).2.w ≤ 2 :=
+  ⟨UnsafeLoops.swallow_on_empty n, UnsafeLoops.safe_on_empty n⟩
+
+/-- a chunked read without an end-of-file exit (the seeded change C06-r3-3): at the end of the data NO fuel suffices —
+it is still looping when the fuel runs out — and it costs two ticks per unit of fuel; with the exit it ends at once -/
+theorem chunked_read_never_ends (M fuel remaining : Nat) (hr : 0 < remaining) (d : B) :
+    (UnsafeLoops.readChunkedFuelC M fuel remaining d d.length).1 = .error .other ∧
+      (UnsafeLoops.readChunkedFuelC M fuel remaining d d.length).2.ticks = 2 * fuel ∧
+      (UnsafeLoops.readChunkedOkC M (fuel + 1) remaining d d.length).1 = .ok ([], d.length) :=
+  ⟨(UnsafeLoops.chunked_never_ends M fuel remaining hr d).1, (UnsafeLoops.chunked_never_ends M fuel remaining hr d).2,
+   UnsafeLoops.chunked_ok_at_eof M fuel remaining d⟩
+
+/-- FINDING (known): `SliceV6.read` reads a descriptor speculatively and undoes it; an undone attempt consumed nothing
+but may have read everything that was left, so no bound "paid by the bytes consumed" holds for it … -/
+theorem slices_not_linear (tb : Descriptor.Tables) (a b k : Nat) (hb : a * 69 + b < 4294967294) :
+    ¬ PayloadCost.CostR a b k (PayloadCost.SliceV6.decC tb) := PayloadCost.SliceV6.decC_not_cost tb a b k hb
+
+/-- … what does hold: quadratic in the bytes left, whatever slice count is declared; never out of fuel -/
+theorem slices_quadratic_partial (tb : Descriptor.Tables) (d : B) (p : Nat) (hp : p ≤ d.length) :
+    (PayloadCost.Slices.decC tb d p).1 = Payload3.Slices.dec tb d p ∧
+    (PayloadCost.Slices.decC tb d p).2.w ≤ (d.length - p + 1) * (4 * (d.length - p) + 53) ∧
+    (PayloadCost.Slices.decC tb d p).1 ≠ .error .other :=
+  ⟨PayloadCost.Slices.decC_fst tb d p, (PayloadCost.Slices.decC_left tb d p hp).1, (PayloadCost.Slices.decC_left tb d p hp).2⟩
+
+/-- FINDING (known, streams other than `io.BytesIO`): the declared length is what `fp.read` is ASKED for; what it
+returns — what the theorems count — is what is there: 40 bytes, a request of 4294967280 -/
+theorem declared_length_is_requested :
+    UnsafeLoops.hugeLengthPsd.length = 40 ∧ UnsafeLoops.declaredRequest UnsafeLoops.hugeLengthPsd = some 4294967280 ∧
+      (OpenCost.openC 1000 UnsafeLoops.hugeLengthPsd).1 = .error .ioError ∧
+      (OpenCost.openC 1000 UnsafeLoops.hugeLengthPsd).2.alloc = 40 := by decide +kernel
+
+/-- the allocation bound, for streams that allocate what they return -/
+theorem open_alloc_partial (D : Nat) (b : B) :
+    (OpenCost.openC D b).2.alloc ≤ 172 * b.length * b.length + 2105 * b.length + 287 := by
+  have := open_steps_bound_deep D b; omega
+
+/-! ### 11. ties to the source (tables regenerated on every run) -/
+
+/-- every class of the two registries has a costed model (or is `LayerInfoBlock`, which recurses into the skeleton) -/
+theorem registry_classes_costed :
+    Generated.OpenRegistry.taggedTypes.all (fun e => e.2 == OpenCost.layerInfoClass || OpenCost.blockRunnerNames.contains e.2) = true ∧
+    Generated.OpenRegistry.resourceTypes.all (fun e => OpenCost.resourceRunnerNames.contains e.2) = true ∧
+    (OpenCost.blockRunners OpenCost.tables OpenCost.engineRunner OpenCost.tyshRun).map (·.1) = OpenCost.blockRunnerNames ∧
+    (OpenCost.resourceRunners OpenCost.tables).map (·.1) = OpenCost.resourceRunnerNames := by
+  refine ⟨by decide +kernel, by decide +kernel, rfl, rfl⟩
+
+example : Generated.OpenRegistry.taggedTypes.length = 87 ∧ Generated.OpenRegistry.resourceTypes.length = 50 := by decide
+
+/-- the `Lr16` / `Lr32` keys the model recurses on are the keys registered for `LayerInfoBlock` -/
+theorem layer_info_keys_tied : OpenCost.hooks.layerInfoKeys = Generated.Payload.layerInfoBlockKeys := by decide +kernel
+
+/-- the loops of the readers: every count-driven / `while` loop of the source belongs to a costed class or to a
+skeleton / descriptor reader with a progress theorem; a class has at least as many progress-checked loops in its model
+shape as its `read` has in the source; no reader loop contains a `try` -/
+theorem reader_loops_tied :
+    Generated.ReadLoops.loops = CostTables.loops ∧
+    (Generated.ReadLoops.loops.filter PayloadCost.isReaderLoop).all (fun e => PayloadCost.ownerCovered e.2.1) = true ∧
+    PayloadCost.allTables.all (fun e => decide (PayloadCost.astLoops e.1 "count" ≤ PayloadCost.kindCount "count" e.2.loops) &&
+      decide (PayloadCost.astLoops e.1 "while" ≤ PayloadCost.kindCount "while" e.2.loops)) = true ∧
+    PayloadCost.skeletonLoops.all (fun s => decide (1 ≤ s.2.2.1)) = true ∧
+    CostTables.loops.all (fun e => e.2.2.1 == "try" || e.2.2.2.2 == "") = true :=
+  ⟨CostTables.read_loops_tied, PayloadCost.loops_covered, PayloadCost.class_loops_tied, PayloadCost.skeleton_progress,
+   CostTables.no_guarded_loop⟩
+
+/-- the allocation sites: every place of the source that allocates from a computed size is classified; while a file
+is being opened a DECLARED size only ever reaches a stream `read` (the two sites of `declared_length_is_requested`),
+never `bytearray`, a repetition, numpy …; the sizes taken from the header (width · height · depth) are export-time -/
+theorem alloc_sites_tied :
+    Generated.AllocSites.sites = CostTables.sites ∧ CostTables.sites = CostTables.siteVerdicts.map (·.1) ∧
+    (CostTables.siteVerdicts.filter (fun e => e.2.1 == "open" && e.2.2 == "declared-size")).map (·.1) =
+      [("psd/layer_and_mask.py", "ChannelData.read", "read", "length"), ("utils.py", "read_length_block", "read", "length")] ∧
+    CostTables.siteVerdicts.all (fun e => !(e.2.1 == "open" && e.2.2 == "declared-size") || e.1.2.2.1 == "read") = true :=
+  ⟨CostTables.alloc_sites_tied, CostTables.sites_all_classified, CostTables.declared_size_at_open,
+   CostTables.declared_size_at_open_is_stream_read⟩
+
+/-- the regular expressions of the engine-data tokenizer are those of the source and pass the sufficient condition for
+O(1) backtracking per byte (star height ≤ 1, disjoint FIRST sets, the one-versus-two tiling exception); the seeded
+variant of `UTF16_END` (C06-2) does not -/
+theorem engine_patterns_safe :
+    Generated.EnginePatterns.patterns = EngineRegexTables.patterns ∧
+    EngineRegexTables.patterns.all (fun p => match EngineRegex.parse p.2 with | some r => EngineRegex.safe r | none => false) = true ∧
+    (EngineRegex.parse "^\\(\\xfe\\xff(?:\\\\.|[^\\)])*\\)").map EngineRegex.safe = some false :=
+  ⟨EngineRegexTied.engine_patterns_tied, EngineRegexTied.engine_patterns_safe, EngineRegexTied.seeded_pattern_unsafe⟩
 
 end PsdVerif.C06
